@@ -50,7 +50,7 @@ impl TCfg {
     pub fn gen(rng: &mut crate::rng::Rng) -> TCfg {
         TCfg {
             metric: rng.below(3) as u8,
-            dim: *rng.pick(&[2usize, 3, 4, 8]),
+            dim: *rng.pick(&[2usize, 3, 4, 5, 8, 9]),
             strat: rng.below(4) as u8,
             trained: rng.chance(1, 2),
             cache_cap: *rng.pick(&[1usize, 2, 5, 50]),
@@ -255,8 +255,10 @@ pub fn exec_cold(b: &Built, op: &ApiOp) -> ApiRes {
             let mut v = unbits(vec);
             // the cold tier expects what the tiered engine would hand it: a normalised vector for cosine / inner product
             if b.cfg.metric != 1 {
+                // (as the tiered engine does: inputs whose squared norm is already inside 0.98-1.02 are kept as they are)
+                let ns32: f32 = v.iter().map(|x| x * x).sum();
                 let n = v.iter().map(|x| (*x as f64) * (*x as f64)).sum::<f64>().sqrt();
-                if n > 0.0 && n.is_finite() {
+                if !(0.98..=1.02).contains(&ns32) && n > 0.0 && n.is_finite() {
                     for x in v.iter_mut() {
                         *x = (*x as f64 / n) as f32;
                     }
@@ -343,7 +345,16 @@ pub fn gen_op(rng: &mut crate::rng::Rng, c: &TCfg, universe: u64, write_no: &mut
     let id = rng.below(universe);
     let mut mk_insert = |rng: &mut crate::rng::Rng, id: u64| {
         *write_no += 1;
-        ApiOp::Insert { id, vec: bits(&gen_vector(rng, c.dim, *write_no)), meta: gen_meta(rng, *write_no) }
+        // a fifth of the writes are versions of the document that differ from each other in the last lane only
+        let v = if rng.chance(1, 5) {
+            let mut v = gen_vector(&mut crate::rng::Rng::new(0xBA5E ^ id), c.dim, 1000 + id);
+            let l = v.len() - 1;
+            v[l] += 0.003 * (*write_no as f32);
+            v
+        } else {
+            gen_vector(rng, c.dim, *write_no)
+        };
+        ApiOp::Insert { id, vec: bits(&v), meta: gen_meta(rng, *write_no) }
     };
     let r = rng.below(100);
     match mix {
